@@ -324,6 +324,12 @@ type implRun struct {
 // listeners are polled after every read so that connection attempts are
 // attributed to the request that caused them.
 func runProcess(cfg *gwCfg, reads [][]byte, listeners []*hostListener) *implRun {
+	return runProcessWith(cfg, reads, listeners, nil)
+}
+
+// runProcessWith lets the caller adjust the tunnel and gateway (real policy
+// callbacks, token fields) and supply the context before the loop starts.
+func runProcessWith(cfg *gwCfg, reads [][]byte, listeners []*hostListener, prep func(*protocol.Tunnel, *protocol.Gateway) context.Context) *implRun {
 	for _, l := range listeners {
 		l.poll()
 		l.reset()
@@ -345,7 +351,12 @@ func runProcess(cfg *gwCfg, reads [][]byte, listeners []*hostListener) *implRun 
 	user := identity.NewUser()
 	user.SetAttribute(identity.AttrClientIp, "192.0.2.1")
 	t := protocol.VerifNewTunnel(st, st, user)
-	p := protocol.NewProcessor(cfg.gateway(), t)
+	gw := cfg.gateway()
+	var pctx context.Context
+	if prep != nil {
+		pctx = prep(t, gw)
+	}
+	p := protocol.NewProcessor(gw, t)
 	done := make(chan struct{})
 	go func() {
 		defer close(done)
@@ -354,7 +365,10 @@ func runProcess(cfg *gwCfg, reads [][]byte, listeners []*hostListener) *implRun 
 				res.panicked = fmt.Sprint(rec)
 			}
 		}()
-		ctx := context.WithValue(context.Background(), protocol.CtxTunnel, t)
+		ctx := pctx
+		if ctx == nil {
+			ctx = context.WithValue(context.Background(), protocol.CtxTunnel, t)
+		}
 		res.err = p.Process(ctx)
 	}()
 	select {
